@@ -284,6 +284,30 @@ CATALOGUE = [
      "            )*braking_angle.value,\n            unit='rad'"),
     ('c07_length_dm_factor', 'C07', 'gearpy/units/units.py',
      "'dm': 1e-1,", "'dm': 1e-2,", 1),
+    # ---- C09
+    ('c09_master_uses_driving_torque', 'C09', 'gearpy/mechanical_objects/spur_gear.py',
+     "        if self.mating_role == MatingMaster:\n            self.tangential_force = \\\n                abs(self.load_torque)/(self.reference_diameter/2)",
+     "        if self.mating_role == MatingMaster:\n            self.tangential_force = \\\n                abs(self.driving_torque)/(self.reference_diameter/2)"),
+    ('c09_lewis_nearest', 'C09', 'gearpy/mechanical_objects/mechanical_object_base.py',
+     "    bounds_error=False\n)", "    bounds_error=False,\n    kind='nearest'\n)"),
+    ('c09_cos_base_helix_not_squared', 'C09', 'gearpy/mechanical_objects/helical_gear.py',
+     "n_teeth/(BASE_HELIX_ANGLE.cos())**2 / \\", "n_teeth/(BASE_HELIX_ANGLE.cos()) / \\"),
+    ('c09_hertz_constant', 'C09', 'gearpy/mechanical_objects/spur_gear.py',
+     "            value=0.262922*sqrt(", "            value=0.2629*sqrt("),
+    ('c09_worm_effective_width', 'C09', 'gearpy/mechanical_objects/worm_wheel.py',
+     "0.67*self.driven_by.reference_diameter", "0.76*self.driven_by.reference_diameter"),
+    ('c09_lewis_table_row_edited', 'C09', 'gearpy/mechanical_objects/gear_data/lewis_factor_table.csv',
+     "45,0.399", "45,0.390"),
+    ('c09_worm_table_row_edited', 'C09', 'gearpy/mechanical_objects/gear_data/worm_gear_and_wheel_data.csv',
+     "25,35,0.15", "25,35,0.155"),
+    ('c09_contact_flag_ignores_modulus', 'C09', 'gearpy/mechanical_objects/mechanical_object_base.py',
+     "            (self.__face_width is not None) and \\\n            (self.__elastic_modulus is not None)",
+     "            (self.__face_width is not None)"),
+    ('c09_missing_mate_modulus_uses_own', 'C09', 'gearpy/mechanical_objects/spur_gear.py',
+     "            if self.driven_by.elastic_modulus is not None:\n                mate_elastic_modulus = self.driven_by.elastic_modulus\n            else:\n                raise ValueError(",
+     "            if self.driven_by.elastic_modulus is not None:\n                mate_elastic_modulus = self.driven_by.elastic_modulus\n            elif True:\n                mate_elastic_modulus = self.elastic_modulus\n            else:\n                raise ValueError("),
+    ('c09_helical_contact_no_cos_beta', 'C09', 'gearpy/mechanical_objects/helical_gear.py',
+     "self.face_width/self.__helix_angle.cos()*inverse_curvature_sum", "self.face_width*inverse_curvature_sum"),
 ]
 
 
